@@ -83,6 +83,9 @@ class Run:
             return self.built[key]
         out = os.path.join(self.bin, name + ("-race" if race else ""))
         cmd = ["go", "build", "-tags", tags, "-o", out]
+        if os.environ.get("VERIF_COVER"):
+            # development aid: statement coverage of /repo by the drivers (run with GOCOVERDIR set; see bin/coverage)
+            cmd += ["-cover", "-coverpkg=github.com/vx-labs/wasp/v4/..."]
         if race:
             cmd.append("-race")
         cmd.append("./cmd/" + name)
